@@ -289,6 +289,20 @@ func c18GenSchemaX(r *core.Rng, rich bool) (*yang.Stmt, *snode) {
 						continue
 					}
 					cname := nm("ca")
+					if r.Chance(1, 2) {
+						// case names are scoped to their choice: cases of different choices may share a name, and
+						// a case may be named like its choice
+						for _, cand := range []string{"v4", "v6", name} {
+							taken := false
+							for _, k := range sn.kids {
+								taken = taken || k.name == cand
+							}
+							if !taken && r.Bool() {
+								cname = cand
+								break
+							}
+						}
+					}
 					cs := yang.S("case", cname)
 					ks, kn := genKids(depth+1, r.Range(1, 2), true)
 					cs.Add(ks...)
